@@ -65,6 +65,9 @@ func runAsm(cfg gmars.SimulatorConfig, text []byte) string {
 
 var presetsText = []gmars.SimulatorConfig{gmars.ConfigNOP94, gmars.ConfigKOTH88, gmars.ConfigICWS88, gmars.ConfigNopNano, gmars.ConfigNop256, gmars.ConfigNopTiny}
 
+// hugeLines: how many lines of more than a mebibyte the load generators may still emit in this run
+var hugeLines = 3
+
 // bigCores is set by the listing generator
 var bigCores bool
 
@@ -250,6 +253,17 @@ func printLoad(rng *rand.Rand, cfg gmars.SimulatorConfig, w gmars.WarriorData, p
 			case 4:
 				lines = append(lines, ";redcode")
 			}
+			if hugeLines > 0 && rng.Intn(150) == 0 {
+				// a physical line longer than a mebibyte (any fixed reader buffer): a comment, or
+				// blanks in front of a comment
+				hugeLines--
+				n := 1<<20 + 1 + rng.Intn(1<<20)
+				if rng.Intn(2) == 0 {
+					lines = append(lines, "; "+strings.Repeat("x", n))
+				} else {
+					lines = append(lines, strings.Repeat(" ", n)+"; c")
+				}
+			}
 			if rng.Intn(40) == 0 {
 				// a physical line longer than bufio's 4096-byte buffer
 				lines = append(lines, p(rng.Intn(2))+"; "+strings.Repeat("long comment, with commas; ", 150+rng.Intn(150)))
@@ -401,6 +415,13 @@ func corrupt(rng *rand.Rand, text []byte) []byte {
 		case 11:
 			return l + " ; c"
 		}
+		if len(fs) == 5 && rng.Intn(6) == 0 {
+			// an extreme spelling in a NUMBER field of an otherwise valid line: the line stays
+			// readable, the field must still come out below the core size
+			fs[2+2*rng.Intn(2)] = []string{"-9223372036854775808", "9223372036854775807", "-9223372036854775807", "-4611686018427387904",
+				"4611686018427387904", "-2147483648", "2147483648", "-0", "+0", "0000000000000000000007"}[rng.Intn(10)]
+			return fs[0] + " " + fs[1] + " " + fs[2] + ", " + fs[3] + " " + fs[4]
+		}
 		return strings.Join(fs, " ")
 	}
 	k := 1 + rng.Intn(2)
@@ -408,7 +429,8 @@ func corrupt(rng *rand.Rand, text []byte) []byte {
 		i := rng.Intn(len(lines))
 		switch rng.Intn(6) {
 		case 0: // insert a directive / junk line somewhere
-			ins := []string{"ORG 0", "END", "END 0", "ORG", ",", ", ,", "DAT", "JMP $ 0", ";name x", "  "}[rng.Intn(10)]
+			ins := []string{"ORG 0", "END", "END 0", "ORG", ",", ", ,", "DAT", "JMP $ 0", ";name x", "  ",
+				";redcode", ";redcode-94", ";REDCODE", "\u212a\u212a;", "\u0130;x", "\u212a ; \u212a", ";strategy", ";strategy\u212a"}[rng.Intn(18)]
 			lines = append(lines[:i], append([]string{ins}, lines[i:]...)...)
 		case 1: // duplicate a line
 			lines = append(lines[:i+1], lines[i:]...)
@@ -497,6 +519,28 @@ func genListing(out *bufio.Writer, rng *rand.Rand, count int) int {
 			if rng.Intn(40) == 0 {
 				w.Code = nil
 				w.Start = 0
+			}
+			if rng.Intn(15) == 0 {
+				// AddWarrior sets no length limit: a warrior longer than a small core, entry point on
+				// any line (also at and beyond the core size)
+				m := uint64(8 + rng.Intn(13))
+				mode := gmars.ICWS94
+				if legacy {
+					mode = gmars.ICWS88
+				}
+				cfg = gmars.NewQuickConfig(gmars.SimulatorMode(mode), gmars.Address(m), 8, 100, gmars.Address(m/3))
+				n := int(m) + 1 + rng.Intn(2*int(m))
+				code := make([]gmars.Instruction, n)
+				for i := range code {
+					f := forms[next%len(forms)]
+					next++
+					f.A, f.B = listingField(rng, m), listingField(rng, m)
+					code[i] = f
+				}
+				w = gmars.WarriorData{Name: "Unknown", Author: "Anonymous", Code: code, Start: rng.Intn(n)}
+				if rng.Intn(2) == 0 {
+					w.Start = int(m) + rng.Intn(n-int(m))
+				}
 			}
 			resp := ""
 			// now and then the caller reuses one variable for two AddWarrior calls on the same
